@@ -74,6 +74,8 @@ type stepJ struct {
 	// Multi: sub-steps issued back to back without waiting for quiescence
 	// in between (racy stimuli).
 	Multi []stepJ `json:"multi"`
+	// Lis: index of the listener a "connect" arrives on.
+	Lis int `json:"lis"`
 }
 
 type scriptJ struct {
@@ -81,6 +83,8 @@ type scriptJ struct {
 	RouterID string  `json:"routerID"`
 	Peers    []peerJ `json:"peers"`
 	Steps    []stepJ `json:"steps"`
+	// Listeners: bound addresses of the listeners given to Serve (default: one wildcard listener).
+	Listeners []string `json:"listeners"`
 }
 
 func toBytes(a []int) []byte {
@@ -369,7 +373,8 @@ type run struct {
 	sc      scriptJ
 	tr      *tracer
 	srv     *corebgp.Server
-	lis     *fakeListener
+	lis     *fakeListener   // listener 0
+	liss    []*fakeListener // all listeners
 	plugins map[string]*recPlugin // by peer name
 	byAddr  map[string]string     // remote addr -> peer name
 	conns   map[string]*fakeConn
@@ -502,7 +507,11 @@ func (r *run) doStep(st stepJ) error {
 		}()
 	case "serve":
 		go func() {
-			err := r.srv.Serve([]net.Listener{r.lis})
+			ls := []net.Listener{}
+			for _, l := range r.liss {
+				ls = append(ls, l)
+			}
+			err := r.srv.Serve(ls)
 			r.tr.emit(event{E: "ret", N: "serve", R: errClass(err)})
 		}()
 	case "close":
@@ -515,7 +524,10 @@ func (r *run) doStep(st stepJ) error {
 	case "connect":
 		c := newFakeConn(st.Conn, st.Dst, st.Src, r.tr)
 		r.conns[st.Conn] = c
-		r.lis.offer(c)
+		if st.Lis < 0 || st.Lis >= len(r.liss) {
+			return fmt.Errorf("no listener %d", st.Lis)
+		}
+		r.liss[st.Lis].offer(c)
 	case "dialAccept":
 		pd := r.livePending(st.Peer)
 		if pd == nil {
@@ -671,7 +683,17 @@ func runScript(t *testing.T, sc scriptJ, w *bufio.Writer) {
 	}()
 	synctest.Test(t, func(t *testing.T) {
 		tr := &tracer{start: time.Now()}
-		r := &run{sc: sc, tr: tr, lis: newFakeListener(tr),
+		addrs := sc.Listeners
+		if len(addrs) == 0 {
+			addrs = []string{"0.0.0.0:179"}
+		}
+		var liss []*fakeListener
+		for _, a := range addrs {
+			l := newFakeListener(tr)
+			l.addr = fakeAddr(a)
+			liss = append(liss, l)
+		}
+		r := &run{sc: sc, tr: tr, lis: liss[0], liss: liss,
 			plugins: map[string]*recPlugin{}, byAddr: map[string]string{},
 			conns: map[string]*fakeConn{}, dials: map[string][]*pendingDial{},
 			nDials: map[string]int{}}
